@@ -825,6 +825,60 @@ func (x *Extractor) ResolveStackStores(origin string) []StackStore {
 			}
 		}
 	}
+	// pushes made through a helper that receives the address of the stack (or of its wrapper)
+	if sub == "" {
+		for _, fn := range x.W.Funcs(x.Role) {
+			for _, b := range fn.Blocks {
+				for _, ins := range b.Instrs {
+					call, ok := ins.(*ssa.Call)
+					if !ok || len(call.Call.Args) == 0 {
+						continue
+					}
+					fa, ok := call.Call.Args[0].(*ssa.FieldAddr)
+					if !ok || !x.isConvPtr(fa.X.Type()) || structFieldName(fa.X.Type(), fa.Field) != field {
+						continue
+					}
+					callee := call.Call.StaticCallee()
+					if callee == nil || callee.Blocks == nil || len(callee.Params) == 0 {
+						continue
+					}
+					for _, cb := range callee.Blocks {
+						for _, ci := range cb.Instrs {
+							st, ok := ci.(*ssa.Store)
+							if !ok {
+								continue
+							}
+							ap, ok := st.Val.(*ssa.Call)
+							if !ok {
+								continue
+							}
+							if bi, ok := ap.Call.Value.(*ssa.Builtin); !ok || bi.Name() != "append" || len(ap.Call.Args) != 2 {
+								continue
+							}
+							// the store goes through the received pointer (directly or into its only field)
+							through := false
+							switch ad := st.Addr.(type) {
+							case *ssa.Parameter:
+								through = ad == callee.Params[0]
+							case *ssa.FieldAddr:
+								through = ad.X == ssa.Value(callee.Params[0])
+							}
+							if !through {
+								continue
+							}
+							for _, el := range variadicElems(ap.Call.Args[1]) {
+								for pi, p := range callee.Params {
+									if el == ssa.Value(p) && pi < len(call.Call.Args) {
+										out = append(out, StackStore{asTmpl(x.eval(call.Call.Args[pi], x.TopEnv(fn))), fn})
+									}
+								}
+							}
+						}
+					}
+				}
+			}
+		}
+	}
 	return out
 }
 
@@ -840,7 +894,12 @@ func (x *Extractor) isElemOfField(t types.Type, field string) bool {
 	}
 	for i := 0; i < st.NumFields(); i++ {
 		if st.Field(i).Name() == field {
-			if sl, ok := st.Field(i).Type().Underlying().(*types.Slice); ok {
+			ft := st.Field(i).Type().Underlying()
+			// a wrapper struct around the list
+			if ws, ok := ft.(*types.Struct); ok && ws.NumFields() == 1 {
+				ft = ws.Field(0).Type().Underlying()
+			}
+			if sl, ok := ft.(*types.Slice); ok {
 				return types.Identical(sl.Elem(), p.Elem())
 			}
 		}
